@@ -58,6 +58,23 @@ def validate (enforceBinary : Bool) (d : MitData) : Outcome :=
           | none => .ok
           | some cf => if cf.length != d.n then .valueError else .ok
 
+/-- `_validate_and_reformat_input` with explicit `expect_y`, `expect_sensitive_features`, `enforce_binary_labels`
+    (_input_validation.py:81-113): the y checks run only under `expect_y`, the row comparison whenever y is given,
+    a missing sensitive feature is an error only under `expect_sensitive_features` -/
+def validateWith (expectY expectSf enforceBinary : Bool) (d : MitData) : Outcome :=
+  let yBad : Bool := expectY && (match d.y with
+    | none => true
+    | some y => y.isEmpty || (enforceBinary && !isBinary y))
+  if yBad then .valueError
+  else if (match d.y with | some y => y.length != d.n | none => false) then .valueError
+  else
+    let cfOut : Outcome := match d.cf with
+      | none => .ok
+      | some cf => if cf.length != d.n then .valueError else .ok
+    match d.sf with
+    | none => if expectSf then .valueError else cfOut
+    | some sf => if sf.length != d.n then .valueError else cfOut
+
 /-- the classification moments' `load_data`, `ExponentiatedGradient.fit`, `GridSearch.fit` (all go through
     `load_data` of the constraint and of the objective with `enforce_binary_labels=True`) -/
 def mitFit (d : MitData) : Outcome := validate true d
@@ -120,6 +137,28 @@ def gridSearch (isMoment ruleOk : Bool) (cw : Rat) : Outcome :=
 /-- every `predict` / `_pmf_predict` / `predict_proba` / `transform` starts with `check_is_fitted` -/
 def predict (fitted : Bool) : Outcome := if fitted then .ok else .notFitted
 
+/-- is (class, method) listed in the lifted table as starting with `check_is_fitted` -/
+def isGuarded (cls method : String) : Bool := predictGuards.contains (cls, method, true)
+
+/-- a named prediction entry point: NotFittedError before fit iff the lifted table says it is guarded -/
+def predictM (cls method : String) (fitted : Bool) : Outcome :=
+  if isGuarded cls method then predict fitted else .ok
+
+/-- `ThresholdOptimizer.predict` / `_pmf_predict` (and the same methods of `InterpolatedThresholder`) at prediction time:
+    `check_is_fitted`, then `_validate_and_reformat_input(X, y=<base predictions of the nX rows>, sensitive_features=..)`
+    with the lifted expect_* / enforce flags -/
+def toPredict (fitted sfGiven : Bool) (nX nSf : Nat) : Outcome :=
+  if !fitted then .notFitted
+  else validateWith toPredictExpectsY toPredictExpectsSf toPredictEnforcesBinary
+    ⟨nX, some (List.replicate nX 0), if sfGiven then some (List.replicate nSf 0) else none, none⟩
+
+/-- `MetricFrame._get_annotated_metric_functions`: `sample_params` must be a dict; for a dict of metrics its keys must be
+    metric names and every per-metric value must itself be a dict (`innerDict`) -/
+def frameFns (spGiven spIsDict metricIsDict keysSubset innerDict : Bool) : Outcome :=
+  if !frameFunctionsPrefix spGiven spIsDict metricIsDict keysSubset then .valueError
+  else if !frameInnerParamsOk (if metricIsDict then innerDict else true) then .valueError
+  else .ok
+
 /-- `CorrelationRemover.fit`: every sensitive id must be a column (label or position) -/
 def corrFit (cols ids : List Nat) : Outcome :=
   if ids.all (fun c => cols.contains c) then .ok else .valueError
@@ -138,6 +177,9 @@ inductive Call where
   | predict (fitted : Bool)
   | corrFit (cols ids : List Nat)
   | corrTransform (fitted : Bool) (mFit mNew : Nat)
+  | predictM (cls method : String) (fitted : Bool)
+  | thrPredict (fitted sfGiven : Bool) (nX nSf : Nat)
+  | frameFns (spGiven spIsDict metricIsDict keysSubset innerDict : Bool)
 
 def run : Call → Outcome
   | .mit d => mitFit d
@@ -149,6 +191,9 @@ def run : Call → Outcome
   | .predict f => predict f
   | .corrFit cols ids => corrFit cols ids
   | .corrTransform f a b => corrTransform f a b
+  | .predictM c m f => predictM c m f
+  | .thrPredict f s a b => toPredict f s a b
+  | .frameFns a b c d e => frameFns a b c d e
 
 def accepts (c : Call) : Bool := run c == .ok
 
@@ -170,7 +215,9 @@ def parseBools := Proto.parseList Proto.parseBool
   `val.frame <nTrue> <nPred> <paramLens> <sfNames> <sfIsStr> <sfLens> <cfNames> <cfIsStr> <cfLens>`
   `val.parity <dGiven> <rGiven> <ratio>`     `val.costs <given> <isDict> <keysOk> <fp> <fn>`
   `val.gs <isMoment> <ruleOk> <cw>`          `val.predict <fitted>`
-  `val.corrfit <cols> <ids>`                 `val.corrtransform <fitted> <mFit> <mNew>` -/
+  `val.corrfit <cols> <ids>`                 `val.corrtransform <fitted> <mFit> <mNew>`
+  `val.predictm <class> <method> <fitted>`   `val.topredict <fitted> <sfGiven> <nX> <nSf>`
+  `val.framefns <spGiven> <spIsDict> <metricIsDict> <keysSubset> <innerDict>` -/
 def handle (toks : List String) : Option String :=
   match toks with
   | ["val.mit", n, y, sf, cf] => do
@@ -196,6 +243,13 @@ def handle (toks : List String) : Option String :=
   | ["val.corrfit", cols, ids] => do pure (corrFit (← Proto.parseNats cols) (← Proto.parseNats ids)).fmt
   | ["val.corrtransform", f, a, b] => do
     pure (corrTransform (← Proto.parseBool f) (← Proto.parseNat a) (← Proto.parseNat b)).fmt
+  | ["val.predictm", c, m, f] => do
+    pure (predictM (← Proto.parseStr c) (← Proto.parseStr m) (← Proto.parseBool f)).fmt
+  | ["val.topredict", f, s, a, b] => do
+    pure (toPredict (← Proto.parseBool f) (← Proto.parseBool s) (← Proto.parseNat a) (← Proto.parseNat b)).fmt
+  | ["val.framefns", a, b, c, d, e] => do
+    pure (frameFns (← Proto.parseBool a) (← Proto.parseBool b) (← Proto.parseBool c) (← Proto.parseBool d)
+      (← Proto.parseBool e)).fmt
   | _ => none
 
 end Validation
